@@ -147,6 +147,28 @@ pub fn run(ctx: &Ctx) {
         },
     );
 
+    // well-formed forgeries for every (hash, W, height up to 25): verdicts must agree
+    let mut fg: Vec<super::c06::ForgeCase> = Vec::new();
+    for h in ALL_HASHES {
+        for w in [1u32, 2, 4, 8] {
+            for ht in [2u32, 5, 10, 15, 20, 25] {
+                for qsel in [2u8, 3, 4] {
+                    fg.push(super::c06::ForgeCase { hash: h, levels: vec![(w, ht)], qsel, tag: (w + ht) as u64, msg_len: 12 });
+                }
+                fg.push(super::c06::ForgeCase { hash: h, levels: vec![(4, 25), (w, ht)], qsel: 4, tag: 3, msg_len: 40 });
+            }
+        }
+    }
+    ctx.enumerate("wellformed_forgeries", fg.len() as u64, true, |i| fg[i as usize].clone(), |c: &super::c06::ForgeCase| {
+        let t = wire::forge(c.hash, &c.levels, c.qsel, c.tag, c.msg_len);
+        let m = Model::with_overrides(c.hash, &ov);
+        match differential(&m, c.hash, &t.msg, &t.sig, &t.pk, "forgery") {
+            Ok(false) => pass(format!("{}|h{}", c.hash.name(), c.levels[0].1), true),
+            Ok(true) => fail("forgery-accepted", "a random well-formed forgery verifies"),
+            Err((k, e)) => fail(k, format!("{} [{}]", e, levels_str(&c.levels))),
+        }
+    });
+
     // exhaustive byte / prefix sweep
     let hashes: Vec<HashId> = if ctx.quick() { vec![HashId::Sha256_128, HashId::Shake256_192] } else { ALL_HASHES.to_vec() };
     let bases = sweep_bases(pool, &hashes);
